@@ -285,6 +285,7 @@ func init() {
 	runners["C13"] = func(c *Ctx) {
 		c.Rep.Rule = "signed AuthnRequest / LogoutRequest / LogoutResponse over 16 key configurations (4 slots present/absent, 4 RSA key pairs; plus ECDSA / Ed25519 signers and a failing key store) x 8 algorithm settings x 7 canonicaliser settings x 3 kinds x configuration strings with markup / quotes / whitespace / non-ASCII: serialise, re-parse, verify with goxmldsig against the designated slot's certificate only, compare declared algorithms / placement / embedded certificate; bytes compared with the Coq model (DigestValue, SignatureValue read back); non-trivial = non-default key configuration, algorithm, canonicaliser or special characters; distinct by (kind, key configuration, algorithm, canonicaliser, classes)"
 		runC13(c)
+		runC13Histories(c)
 	}
 }
 
